@@ -5,6 +5,7 @@ SPECIFICATION Spec
 CONSTANTS
   Fwd = {p1, p2}
   Ids = {m1}
+  T2Ids = {}
   LocalIds = {m1}
   Workers = {w1, w2}
   Calls = {c1}
